@@ -18,7 +18,7 @@ if only: ids = [i for i in ids if any(i.startswith(o) for o in only)]
 KNOWN = ['rule=%s construct=%s ' % (f['rule'], f['construct']) for f in json.load(open('/verif/known_findings.json')).get('findings', []) if f.get('status') == 'known']
 os.makedirs('/tmp/fmx', exist_ok=True)
 def worker(k):
-    wt = '/tmp/fmx/w%d' % k
+    wt = '/tmp/fmx/p%d_w%d' % (os.getpid(), k)
     subprocess.call(['git', '-C', '/repo', 'worktree', 'remove', '--force', wt], stderr=subprocess.DEVNULL)
     if subprocess.call(['git', '-C', '/repo', 'worktree', 'add', '-q', '--detach', wt, 'HEAD']) != 0: return []
     rows = []
@@ -35,6 +35,16 @@ def worker(k):
             own = json.load(open('/verif/seeded/%s/meta.json' % i))['breaks_property']
             hit = [f for f in fired if f.startswith(own + '-') and not f.endswith('?')]
             row = '%s: %s %s' % (i, 'own-check YES' if hit else 'own-check NO ', ' '.join(fired))
+            # record what reports the change (violations only)
+            mp = '/verif/seeded/%s/meta.json' % i
+            meta = json.load(open(mp))
+            det = {}
+            for f in fired:
+                if not f.endswith('?'):
+                    det.setdefault(f.split('-')[0], set()).add(f)
+            meta['detected_by'] = [{"property": p, "rules": sorted(r)} for p, r in sorted(det.items())]
+            meta['detected_by_own_property_check'] = bool(hit)
+            json.dump(meta, open(mp, 'w'), indent=1)
         rows.append(row); print(row, flush=True)
     subprocess.call(['git', '-C', '/repo', 'worktree', 'remove', '--force', wt])
     return rows
